@@ -1839,6 +1839,21 @@ def gen_func(rng: random.Random) -> dict:
     blocks[-1]["term"] = {"k": "ret", "v": rng.randrange(0, 12)}
     produced = [t for t in seen[len(args):] if t != "ptr"]
     ret = rng.choice(produced) if produced and rng.random() < .85 else _wchoice(rng, _TYW)
+    if nb >= 2 and rng.random() < .15:
+        # merge-block family: cond_br with both edges to the last block, 2-4 block arguments of one
+        # type, operand lists drawn with repetition from a pool of 3 on each edge independently;
+        # the merge block folds all its arguments (asymmetric sub chain) into the return value
+        t = _wchoice(rng, [p for p in _TYW if p[0] != "i1"])
+        args = ([t, t, t] + args)[:5]
+        if "i1" not in args:
+            args.append("i1")
+        k = rng.randrange(2, 5)
+        sub = {"k": "fbin", "op": "fsub", "f": 0} if t in FLOAT_T else {"k": "bin", "op": "sub", "f": 0}
+        chain = [dict(sub, t=t, a=-1, b=-(2 * j + 2)) for j in range(k - 1)]
+        blocks[-1] = {"params": [t] * k, "ops": chain, "term": {"k": "ret", "v": -1}}
+        blocks[-2]["term"] = {"k": "cbr", "c": 0, "to": [0, 0], "diff": 1,
+                              "args": [[rng.randrange(0, 3) for _ in range(k)] for _ in range(2)]}
+        ret = t
     layout = []
     if nb > 2 and rng.random() < .3:
         layout = [rng.randrange(0, 6) for _ in range(nb - 1)]
@@ -1913,6 +1928,31 @@ def unit_recipes() -> list:
             for f in range(4):
                 ret = "i1" if i in (0, 1, 2, 13, 14) else t
                 add([t, t], ret, {"k": "idiom", "id": i, "t": t, "a": 0, "b": 1, "f": f}, opts=(1,))
+    out.extend(same_target_recipes())
+    return out
+
+
+def same_target_recipes() -> list:
+    """cond_br with both edges to one block and n=2..3 block arguments: every assignment of the
+    arguments over a pool of 3 values on each edge independently (with repetition); both condition
+    values are executed.  The merge block returns 3*p0 + 5*p1 (+ 7*p2), so every wrongly forwarded
+    argument changes the result."""
+    import itertools
+    out = []
+    rows = [[1, 10, 100, 1], [1, 10, 100, 0], [7, 2, 5, 0], [7, 2, 5, 1]]
+    for n in (2, 3):
+        ops = [{"k": "bin", "op": "mul", "t": "i32", "a": 3 + j, "bc": (3, 5, 7)[j], "f": 0}
+               for j in range(n)]
+        # values of type i32 at the end of the block: .., k3, m0, k5, m1[, k7, m2]
+        ops.append({"k": "bin", "op": "add", "t": "i32", "a": -1, "b": -3, "f": 0})
+        if n == 3:
+            ops.append({"k": "bin", "op": "add", "t": "i32", "a": -1, "b": -6, "f": 0})
+        for i, (ta, ea) in enumerate(itertools.product(itertools.product(range(3), repeat=n), repeat=2)):
+            out.append({"kind": "prog", "opt": i & 1, "text": 0, "inputs": rows, "funcs": [{
+                "args": ["i32", "i32", "i32", "i1"], "ret": "i32", "layout": [], "blocks": [
+                    {"params": [], "ops": [],
+                     "term": {"k": "cbr", "c": 0, "to": [0, 0], "diff": 1, "args": [list(ta), list(ea)]}},
+                    {"params": ["i32"] * n, "ops": ops, "term": {"k": "ret", "v": -1}}]}]})
     return out
 
 
